@@ -337,6 +337,7 @@ pub async fn poll_as_group(h: &mut Harness, c: usize, sid: u32, tid: u32, partit
                     h.stats.probe("rotation_window_checked");
                 }
             }
+            h.model.member_current.insert(key, polled.partition_id);
             polled.partition_id
         }
     };
